@@ -405,6 +405,17 @@ Section Mux.
   (* BeginBlock .. Commit (mux.go:567-846, state.go:423-481): cached results if the
      hash matches, otherwise execute on the committed state; then the working tree
      becomes the committed state and the cache is dropped. *)
+  (* The tree BeginBlock executes on when it does not return cached results (mux.go:569,
+     state.go:544-552): resetProposalIfChanged(hash) resets the proposal -- a fresh overlay over
+     the committed state -- only if the hash differs; with the SAME hash and no results
+     (needsExecution) execution simply continues on the proposal's existing working tree. *)
+  Definition working_tree (n : node) (b : block) : state :=
+    match n_cache n with
+    | Some c => if bytes_eqb (p_hash (pc_id c)) (b_hash b) && negb (p_executed (pc_id c)) then pc_tree c
+                else n_committed n
+    | None => n_committed n
+    end.
+
   Definition finalize (n : node) (b : block) : option (node * outputs) :=
     if begin_reuses (snapshot n) (b_hash b) then
       match n_cache n with
@@ -412,7 +423,7 @@ Section Mux.
       | None => None
       end
     else
-      match exec_block (n_cfg n) (dispatch n) false (n_committed n) b with
+      match exec_block (n_cfg n) (dispatch n) false (working_tree n b) b with
       | None => None
       | Some (s', o) => Some (mkNode s' None (n_cfg n) (n_apps n), o)
       end.
@@ -446,9 +457,23 @@ Section Mux.
      node prepared (round failed), or somebody's proposal it processed (round failed). *)
   Inductive stale :=
   | StalePrepared (key : bytes) (hd : header) (cands : list bytes) (cm : list vote) (ms : list misb)
-  | StaleProcessed (b' : block).
+  | StaleProcessed (b' : block)
+  (* ProcessProposal of b' panicked at an arbitrary point (a transient node-local fault, e.g.
+     api.UnavailableStateError in DeliverTx) after the working tree had become [dirty]; the
+     deferred handler turned the panic into REJECT (mux.go:483-507). *)
+  | StaleAborted (b' : block) (dirty : state).
+
+  (* what the recovered panic leaves behind: with the handler's resetProposal() (mux.go:505-506)
+     a fresh proposal; without it the half-executed tree, keyed by b''s hash, without results *)
+  Definition abort_round (resets : bool) (n : node) (b' : block) (dirty : state) : node :=
+    if resets then mkNode (n_committed n) None (n_cfg n) (n_apps n)
+    else mkNode (n_committed n)
+                (Some (mkCache (mkProposal None [] [] (b_hash b') false) (b_commit b') dirty (mkOut [] [] [] [] [])))
+                (n_cfg n) (n_apps n).
+
   Definition apply_stale (n : node) (st : stale) : node :=
     match st with
+    | StaleAborted b' dirty => abort_round process_panic_handler_resets n b' dirty
     | StalePrepared key hd cands cm ms => fst (prepare n key hd cands cm ms)
     | StaleProcessed b' =>
       match process_proposal n b' with
